@@ -22,6 +22,9 @@ checks = {
  "C05": ("exploration", "6/C05",
          "Seeded simulation of single listings (Repositories / Tags / Referrers) over seeded registry contents (sizes around page multiples, sibling names sharing a textual prefix) through seeded stacks of sub / select / debug wrappers, 0-2 HTTP hops and ociunify (inside the deterministic scheduler), with seeded client page size, server page limit, Link on/off, start point (absent, equal, between, beyond, URL metacharacters), consumers that stop after k items, and at most one fault (lost request/response, 500, corrupt JSON or truncated body on page j; backend iterator error after item j; failing unify member). Oracle: complete sorted duplicate-free sequence strictly after the start point, or an error; never a silently short list; no consumer call after stop/error; bounded number of requests.",
          "deterministic simulation with transport and backend-iterator fault injection at seeded pages/items; expected listing computed from the wrapper semantics; choice-trace replay and minimisation"),
+ "C06": ("exploration", "6/C06",
+         "Seeded simulation of request sessions against the real ociserver handler driven in-process: grammar-directed and mutated request lines (all methods, every path template with valid/other/invalid repositories, digests, tags and upload ids, empty segments, repeated slashes, over-long names; n/last/digest/mount/from queries; Range / Content-Range / Content-Type headers; known and unknown body lengths) over a populated ocimem, a fault-injecting backend (error at call k, reader failing mid-stream, iterator failing, writer failing; request body breaking mid-stream) and partially populated Funcs tables. Monitors: no panic; error responses are OCI JSON whose status agrees with the code; success responses carry the mandated headers with Content-Length equal to the body (healthy backend); every backend call has repository/tag/digest accepted by independent validators; every reader/writer obtained from the backend is closed when ServeHTTP returns.",
+         "deterministic simulation: seeded request sessions with backend and request-body fault injection; recording/validating backend monitor with open-handle tracking; choice-trace replay and minimisation (the request-shape sweep itself is input generation)"),
 }
 
 na = [
